@@ -1,6 +1,8 @@
 package checks
 
 import (
+	"math"
+	"math/big"
 	"math/rand"
 	"strings"
 
@@ -126,3 +128,36 @@ func longTokenInputs(n int) []string {
 		"{{ x" + strings.Repeat(".y", n/2) + " }}",
 	}
 }
+
+// wrappingCounts gives, for a byte length L, counts whose product with L passes a multiple of 2^64 by little
+// (a size computed as L*count wraps to a small number), and counts around 2^61..2^63 divided by L
+func wrappingCounts(L int) []int64 {
+	var out []int64
+	two64 := new(big.Int).Lsh(big.NewInt(1), 64)
+	maxI := big.NewInt(math.MaxInt64)
+	for m := int64(1); m <= 3; m++ {
+		q := new(big.Int).Mul(two64, big.NewInt(m))
+		q.Add(q, big.NewInt(int64(L-1)))
+		q.Div(q, big.NewInt(int64(L))) // ceil(m*2^64 / L)
+		for d := int64(0); d <= 2; d++ {
+			v := new(big.Int).Add(q, big.NewInt(d))
+			if v.Cmp(maxI) <= 0 {
+				out = append(out, v.Int64())
+			}
+		}
+	}
+	for k := uint(60); k <= 63; k++ {
+		q := new(big.Int).Lsh(big.NewInt(1), k)
+		q.Div(q, big.NewInt(int64(L)))
+		for d := int64(-1); d <= 1; d++ {
+			v := new(big.Int).Add(q, big.NewInt(d))
+			if v.Sign() > 0 && v.Cmp(maxI) <= 0 {
+				out = append(out, v.Int64())
+			}
+		}
+	}
+	return out
+}
+
+// stringsOfByteLength: one valid UTF-8 string per byte length 1..16
+var stringsOfByteLength = []string{"a", "é", "中", "😀", "ab中", "中中", "😀中", "😀😀", "中中中", "😀😀é", "😀😀中", "😀😀😀", "😀😀😀a", "😀😀😀é", "😀😀😀中", "😀😀😀😀"}
